@@ -118,6 +118,21 @@ CLAIMED = {
              "assigned after creation counts as the later (stronger) config channel. Tract: only settings that affect "
              "Tract.parse (default directions / ocr_scrub matter only in from_twprgesec, covered by C12).",
         design_ref="§5.7, §6 C13"),
+    "C14": dict(
+        technique="TLA+ symbolic life-cycle model (Lifecycle.tla) checked by TLC; all bounded behaviours and random longer "
+                  "call histories replayed on real Tract/PLSSDesc objects; every recorded call validated by the trace "
+                  "specification (equal symbolic state => equal snapshot, fresh objects included)",
+        text="The model names a committed parse by the attributes and keywords it ran with and tracks what each call may "
+             "change; TLC checks commit=False changes nothing, committing calls are idempotent, a committed parse replaces "
+             "and equals the fresh-object result. Every behaviour of the bounded model, every fresh object (+ one committed "
+             "parse) and hundreds of random histories (3..18 calls, immediate re-parses, config assignment, preprocess, "
+             "sort, filter) are executed; after each call a snapshot of every public attribute of the object and its tracts "
+             "is recorded; the trace spec requires all objects in the same symbolic state - across histories - to have the "
+             "same snapshot and calls with the same settings to return the same value.",
+        note="Trusted: the snapshot projection (DESIGN Appendix B; flags as multisets; 28-bit hash). One probe text per "
+             "object kind; settings varied: clean_qq, qq_depth (Tract); sec_colon_cautious, parse_qq, clean_qq, default_ns "
+             "(PLSSDesc).",
+        design_ref="§5.8, §6 C14"),
 }
 
 NOT_APPLICABLE = {
